@@ -59,6 +59,7 @@ HTTP_REQ = b'GET http://example.org/a HTTP/1.1\r\nHost: example.org\r\n\r\n'
 SEND_CODES = {'b': ('blocking',), 'p': ('brokenPipe',), 'o': ('oserror',), 'w': ('wantWrite',)}
 RECV_CODES = {'e': ('eof',), 'r': ('reset',), 't': ('timedout',), 'o': ('oserror',), 'b': ('blocking',),
               'w': ('wantRead',)}
+UNIT = 1024      # clock units per second for reaper events (float arithmetic stays exact)
 CLIENT_SEND_FAIL = ('p', 'o', 'w')
 UP_SEND_FAIL = ('p', 'o')
 
@@ -208,11 +209,21 @@ class Shadow:
             return 'r'
 
 
+def timeout_units(case):
+    t = case.get('timeout')
+    if t is None:
+        from proxy.common.constants import DEFAULT_TIMEOUT
+        t = DEFAULT_TIMEOUT
+    return t * UNIT
+
+
 def _args(case):
     args, opts, req, kind = SETUPS[case['setup']]
     args = list(args)
     if case.get('max') is not None:
         args += ['--max-sendbuf-size', str(case['max'])]
+    if case.get('timeout') is not None:
+        args += ['--timeout=%d' % case['timeout']]
     return args, dict(opts), req, kind
 
 
@@ -300,7 +311,31 @@ def run_relay(case, after=None):
         apps = []
         steps = []          # per tick: dict for the oracles
         ret = 'c'
+        ex = None
         for t in case['ticks']:
+            if t[0] == 'R':
+                # the idle reaper looks at the connection when time.time() - last_activity
+                # is exactly t[1] clock units (1/1024 s): real is_inactive(), then the real
+                # Threadless._cleanup_inactive() of a real LocalFdExecutor holding the handler
+                w.clock.now = h.last_activity + t[1] / float(UNIT)
+                ia = bool(h.is_inactive())
+                wid = cs.fileno()
+                if ex is None:
+                    ex = w.executor({wid: h})
+                pending = sim.flat(h.work)
+                pending_n = len(h.work.buffer)
+                w.reap(ex)
+                closed = wid not in ex.works
+                obs.append('reap ia=%d closed=%d' % (ia, closed))
+                apps.append(None)
+                steps.append({'reap': True, 'ia': ia, 'closed': closed, 'pending': pending, 'pending_n': pending_n,
+                              'elapsed': t[1], 'clog': [], 'ulog': [], 'ret': 'r' if closed else 'c',
+                              'cflat': pending, 'uflat': b''.join(_up_elems(h)), 'cn': pending_n,
+                              'pre': {'mf': False, 'rt': False, 'cbuf': 0}, 'exc': None})
+                if closed:
+                    ret = 'r'
+                    break
+                continue
             fl, cr, cso, ur, uso = t
             masked = fl[0] == 'm'
             bits = [c == '1' for c in fl[1:5]]
@@ -369,11 +404,14 @@ def relay_model_line(case, apps=None):
         from proxy.common.constants import DEFAULT_MAX_SEND_SIZE
         mx = DEFAULT_MAX_SEND_SIZE
     toks = []
-    if apps is None and kind == 'http' and any(isinstance(t[1], list) for t in case['ticks']):
+    if apps is None and kind == 'http' and any(t[0] != 'R' and isinstance(t[1], list) for t in case['ticks']):
         apps = run_relay(case)['apps']
     for i, t in enumerate(case['ticks']):
+        if t[0] == 'R':
+            toks.append('R%d,%d' % (t[1], timeout_units(case)))
+            continue
         fl, cr, cso, ur, uso = t
-        app = apps[i] if apps is not None and i < len(apps) else 'a/None/None/0'
+        app = apps[i] if apps is not None and i < len(apps) and apps[i] is not None else 'a/None/None/0'
         toks.append(':'.join([fl, recv_tok(cr), send_tok(cso), recv_tok(ur), send_tok(uso), app]))
 
     def b(elements):
@@ -714,7 +752,7 @@ def describe(case):
     if case['kind'] == 'flush':
         return ['flush side=' + case['side'], 'flush max=%s' % case['max']]
     n = len(case['ticks'])
-    fails = sum(1 for t in case['ticks'] for o in (t[2], t[4]) if o in ('p', 'o', 'w'))
+    fails = sum(1 for t in case['ticks'] if t[0] != 'R' for o in (t[2], t[4]) if o in ('p', 'o', 'w'))
     return ['relay ' + case['setup'], 'relay ticks ' + ('<=3' if n <= 3 else '<=10' if n <= 10 else '>10'),
             'relay max=%s' % case.get('max'), 'relay send-failures=%d' % min(fails, 3)]
 
@@ -723,4 +761,4 @@ def nontrivial(case):
     if case['kind'] == 'flush':
         return any(op[0] == 'f' and isinstance(op[1], list) and op[1][1] > 0 for op in case['ops']) \
             and any(op[0] == 'q' for op in case['ops'])
-    return any(isinstance(t[3], list) or isinstance(t[1], list) for t in case['ticks'])
+    return any(t[0] != 'R' and (isinstance(t[3], list) or isinstance(t[1], list)) for t in case['ticks'])
